@@ -33,6 +33,16 @@ TS_EXPR = (r'^(?P<year>\d{4})-(?P<month>\d{2})-(?P<day>\d{2}) '
 # second matcher class: also reads the ISO 'T' form -> lines in that form
 # are undecidable for constraints using the first class only
 TS2_EXPR = TS_EXPR.replace(r'(?P<day>\d{2}) ', r'(?P<day>\d{2})[ T]')
+# third matcher class: several patterns that match the SAME text with
+# different readings, in order of precedence: day/month/year first, then
+# month/day/year, then the ISO form - the FIRST matching pattern supplies the
+# line's timestamp
+DMY_EXPR = (r'^(?P<day>\d{2})/(?P<month>\d{2})/(?P<year>\d{4}) '
+            r'(?P<hours>\d{2}):(?P<minutes>\d{2}):(?P<seconds>\d{2})')
+MDY_EXPR = (r'^(?P<month>\d{2})/(?P<day>\d{2})/(?P<year>\d{4}) '
+            r'(?P<hours>\d{2}):(?P<minutes>\d{2}):(?P<seconds>\d{2})')
+MATCHER_PATTERNS = {1: [TS_EXPR], 2: [TS2_EXPR],
+                    3: [DMY_EXPR, MDY_EXPR, TS_EXPR]}
 FMT = '%Y-%m-%d %H:%M:%S'
 T0 = datetime(2022, 3, 10, 12, 0, 0)
 
@@ -199,6 +209,134 @@ def gen_shared_case(rng):
             'global': cons['1'][:3], 'global_shared': 1, 'patch': None}
 
 
+def _simple_defs(rng, ncons, force_first_constrained=False):
+    """ 2-4 simple definitions, some with own constraints """
+    ndefs = rng.choice([2, 2, 3, 4])
+    defs = []
+    for i in range(ndefs):
+        k = rng.random()
+        if (force_first_constrained and i == 0) or k < 0.5:
+            dc = [rng.randint(1, ncons)]
+        elif k < 0.65 and ncons > 1:
+            dc = rng.sample(range(1, ncons + 1), 2)
+        else:
+            dc = []
+        if force_first_constrained and i == ndefs - 1:
+            dc = []
+        npat = rng.choice([1, 1, 2])
+        defs.append({'patterns': [rng.choice(PATTERNS7 + [r'.*(aa|bb|ab)'])
+                                  for _ in range(npat)],
+                     'hint': None, 'store': rng.random() < 0.85,
+                     'tag': f'u{i}', 'as_list': npat > 1, 'cons': dc,
+                     'seq': False})
+    if not any(d['cons'] for d in defs):
+        defs[0]['cons'] = [1]
+    return defs
+
+
+def _case(content, defs, cons, policy=None):
+    n = len(defs)
+    return {'content_hex': content.hex(), 'policy': policy, 'defs': defs,
+            'reg': list(range(n)), 'allow': [True] * n,
+            'via': ['file'] * n, 'cons': cons, 'global': None,
+            'global_shared': None, 'patch': None}
+
+
+def gen_multi_matcher_case(rng):
+    """ constraints using a timestamp matcher with SEVERAL patterns that
+    match the same text with different readings (dd/mm/yyyy before
+    mm/dd/yyyy before ISO): the first matching pattern is the line's
+    timestamp """
+    n = rng.choice([2, 3, 5, 8, 12])
+    stamps = [T0 + timedelta(hours=rng.randint(-96, 30),
+                             minutes=rng.choice([0, 0, 30]))
+              for _ in range(n)]
+    if rng.random() < 0.6:
+        stamps.sort()
+    lines = []
+    for ts in stamps:
+        body = ' '.join(rng.choice(c01.TOKENS)
+                        for _ in range(rng.choice([1, 2, 3])))
+        k = rng.random()
+        if k < 0.65:
+            line = ts.strftime('%d/%m/%Y %H:%M:%S ') + body
+        elif k < 0.8:
+            line = ts.strftime(FMT) + ' ' + body     # third pattern only
+        elif k < 0.9:
+            # day > 12: the second reading is not a date at all
+            line = ts.replace(day=rng.randint(13, 28)).strftime(
+                '%d/%m/%Y %H:%M:%S ') + body
+        else:
+            line = body
+        lines.append(line.encode())
+    content = b'\n'.join(lines) + b'\n'
+    cons = {}
+    ncons = rng.choice([1, 2])
+    for cid in range(1, ncons + 1):
+        cur = T0 + timedelta(hours=rng.randint(-30, 30))
+        cons[str(cid)] = [cur.strftime(FMT), 0,
+                          rng.choice([6, 12, 24, 36, 48, 72]), 3]
+    return _case(content, _simple_defs(rng, ncons), cons)
+
+
+def gen_decode_case(rng):
+    """ files with undecodable bytes - also inside the timestamps - searched
+    with a lenient decode policy: a line's timestamp is that of the line AS
+    DECODED BY THE SEARCHER'S POLICY """
+    policy = rng.choice(['ignore', 'ignore', 'replace', 'backslashreplace'])
+    n = rng.choice([2, 3, 5, 8, 12])
+    stamps = [T0 + timedelta(hours=rng.randint(-72, 24)) for _ in range(n)]
+    if rng.random() < 0.6:
+        stamps.sort()
+    lines = []
+    for ts in stamps:
+        body = ' '.join(rng.choice(c01.TOKENS)
+                        for _ in range(rng.choice([1, 2, 3]))).encode()
+        stamp = ts.strftime(FMT).encode()
+        k = rng.random()
+        bad = rng.choice([b'\xff', b'\xc3', b'\x80', b'\xe2\x82'])
+        if k < 0.4:
+            pos = rng.randint(0, len(stamp))
+            stamp = stamp[:pos] + bad + stamp[pos:]
+        elif k < 0.55:
+            pos = rng.randint(0, len(body))
+            body = body[:pos] + bad + body[pos:]
+        elif k < 0.7:
+            stamp = b''
+        lines.append(stamp + (b' ' if stamp else b'') + body)
+    content = b'\n'.join(lines) + b'\n'
+    if content[:2] == b'\x1f\x8b':
+        content = b'a' + content
+    cons = {}
+    ncons = rng.choice([1, 2])
+    for cid in range(1, ncons + 1):
+        cur = T0 + timedelta(hours=rng.randint(-30, 30))
+        cons[str(cid)] = [cur.strftime(FMT), 0,
+                          rng.choice([6, 12, 24, 36, 48, 72]), 1]
+    return _case(content, _simple_defs(rng, ncons), cons, policy)
+
+
+def gen_neighbour_case(rng):
+    """ C01: a constrained search registered BEFORE unconstrained ones on a
+    file with lines its constraint rejects or cannot read - the neighbours
+    must still see every line """
+    n = rng.choice([3, 5, 8, 12, 16])
+    stamps = [T0 + timedelta(hours=rng.randint(-72, 24)) for _ in range(n)]
+    if rng.random() < 0.5:
+        stamps.sort()
+    lines = []
+    for ts in stamps:
+        body = ' '.join(rng.choice(c01.TOKENS)
+                        for _ in range(rng.choice([1, 2, 3])))
+        lines.append((body if rng.random() < 0.3
+                      else ts.strftime(FMT) + ' ' + body).encode())
+    content = b'\n'.join(lines) + (b'\n' if rng.random() < 0.85 else b'')
+    cur = T0 + timedelta(hours=rng.randint(-20, 30))
+    cons = {'1': [cur.strftime(FMT), 0, rng.choice([6, 12, 24, 36]), 1]}
+    return _case(content, _simple_defs(rng, 1, force_first_constrained=True),
+                 cons)
+
+
 def gen_global_case(rng):
     """ C01: a time-ordered log, every line dated, a file-level constraint
     whose window starts at one of the lines (so the seek skips a non-empty
@@ -251,12 +389,17 @@ def since_of(spec):
 
 
 def make_con_outcome(case):
-    exprs = {1: re.compile(TS_EXPR), 2: re.compile(TS2_EXPR)}
+    exprs = {k: [re.compile(e) for e in v]
+             for k, v in MATCHER_PATTERNS.items()}
     since = {int(c): since_of(s) for c, s in case['cons'].items()}
     kind = {int(c): s[3] for c, s in case['cons'].items()}
 
     def outcome(cid, text):
-        m = exprs[kind[cid]].match(text)
+        m = None
+        for expr in exprs[kind[cid]]:      # first matching pattern decides
+            m = expr.match(text)
+            if m:
+                break
         if not m:
             return 'Undecided'
         try:
@@ -296,16 +439,16 @@ Definition run_model7 (c : case7) : jv :=
   | TaskOk bs =>
       let rs := concat bs in
       JL [JZ (lenZ rs);
-          JL (map (fun t => JL (rle (jsort (map res_jv
-                 (filter (fun r => r_tag r =? t) rs))))) tags)]
+          JL (map (fun t => JL (rle (canon (snd t) (map res_jv
+                 (filter (fun r => r_tag r =? fst t) rs))))) tags)]
   end.
 Definition run_spec7 (c : case7) : jv :=
   let '((mx, nb, tags, ds, uds, lines), (glob, pos, regs, whole)) := c in
   let ls := if whole then lines else skipn (Z.to_nat pos) lines in
   let per d := spec_constrained tline t_omatch t_ohint t_ocon d ls in
   JL [JZ (lenZ (flat_map per uds));
-      JL (map (fun t => JL (rle (jsort (flat_map
-             (fun d => if s_tag d =? t then map obs_jv (per d) else [])
+      JL (map (fun t => JL (rle (canon (snd t) (flat_map
+             (fun d => if s_tag d =? fst t then map obs_jv (per d) else [])
              uds)))) tags)].
 """
 
@@ -323,7 +466,12 @@ def make_matchers():
         @property
         def patterns(self):
             return [TS2_EXPR]
-    return {1: TS1, 2: TS2}
+
+    class TS3(TimestampMatcherBase):
+        @property
+        def patterns(self):
+            return list(MATCHER_PATTERNS[3])
+    return {1: TS1, 2: TS2, 3: TS3}
 
 
 def run_impl(case, path, vals):
@@ -345,9 +493,10 @@ def run_impl(case, path, vals):
         gc = cobj[case['global_shared']]
     elif case['global']:
         g = case['global']
-        gc = SearchConstraintSearchSince(current_date=g[0],
-                                         ts_matcher_cls=matchers[1],
-                                         days=g[1], hours=g[2])
+        gc = SearchConstraintSearchSince(
+            current_date=g[0],
+            ts_matcher_cls=matchers[g[3] if len(g) > 3 else 1],
+            days=g[1], hours=g[2])
     sds = []
     for d in case['defs']:
         pat = d['patterns'] if d['as_list'] else d['patterns'][0]
@@ -361,7 +510,7 @@ def run_impl(case, path, vals):
         else:
             sds.append(SearchDef(pat, tag=d['tag'], hint=d['hint'],
                                  store_result_contents=d['store'], **kw))
-    fs = FileSearcher(constraint=gc)
+    fs = FileSearcher(constraint=gc, decode_errors=case.get('policy'))
     # the file is alone in its directory: registering the directory or a
     # glob denotes exactly this file
     how = {'file': path, 'dir': os.path.dirname(path),
@@ -406,6 +555,7 @@ def run_impl(case, path, vals):
                 break
             acc += len(raw)
     tids = c01.tag_ids(case)
+    shared = c01.tag_shared(case)
     per_tag = []
     for tag in tids:
         owners = [d for d in case['defs'] if d['tag'] == tag]
@@ -422,7 +572,7 @@ def run_impl(case, path, vals):
             idxs = [p[0] for p in r.data]
             lst.append([r.linenumber,
                         [[i, vals(v)] for i, v in zip(idxs, values)]])
-        per_tag.append(c01.rle(sorted(lst)))
+        per_tag.append(c01.rle(sorted(lst) if shared[tag] else lst))
     return [len(res.find_by_path(path)), per_tag], pos
 
 
@@ -561,6 +711,14 @@ def classify(chk, case, tables, want, pos, restricted, uniform):
     if case['global'] and not restricted:
         chk.dist('seek-skipped-lines' if pos else 'seek-at-start')
     chk.dist('uniform' if uniform else 'heterogeneous')
+    if any(s_[3] == 3 for s_ in case['cons'].values()):
+        chk.dist('multi-pattern-timestamp-matcher')
+        if any(re.match(r'(0[1-9]|1[0-2])/(0[1-9]|1[0-2])/', raw.decode())
+               for raw in c01.split_lines(bytes.fromhex(case['content_hex']))
+               if raw[:1].isdigit()):
+            chk.dist('line-with-two-valid-readings')
+    if case.get('policy'):
+        chk.dist('decode-policy=%s' % case['policy'])
     via = case.get('via') or []
     if case['global'] and restricted:
         kinds = {v for v, a in zip(via, case['allow']) if not a}
@@ -574,7 +732,7 @@ def classify(chk, case, tables, want, pos, restricted, uniform):
                   '+seek-at-start' if not pos else '+seek-skipped'))
     stamps = []
     for raw in c01.split_lines(bytes.fromhex(case['content_hex'])):
-        m = re.match(TS_EXPR, raw.decode())
+        m = re.match(TS_EXPR, raw.decode('utf-8', 'replace'))
         if m:
             stamps.append(m.group(0))
     chk.dist('timestamps-' + ('ordered' if stamps == sorted(stamps)
@@ -685,14 +843,17 @@ def run(chk):
         "constraint (in 30% of those the SAME constraint object is also a "
         "search's own constraint; plus a family where that is so and the "
         "file is not positioned: restricted by a neighbour, or without "
-        "readable timestamps); every registration made by file path, by directory or by glob; 13 fixed shapes.  Constraint outcomes tabulated with "
+        "readable timestamps); every registration made by file path, by directory or by glob; a family whose constraints use a timestamp matcher with several patterns giving different readings of the same text (first pattern wins); a family with undecodable bytes inside timestamps under the lenient decode policies; 13 fixed shapes.  Constraint outcomes tabulated with "
         "plain re + datetime.  Each case: real FileSearcher.run() vs Coq "
         "model; vs Coq spec when undecidedness is uniform.  Non-trivial = a "
         "constrained definition has a matching line before its activation "
         "line and one from it on")
     n = 700 if chk.quick else 5000
     cases = fixed_cases() + [gen_case(rng) for _ in range(n)] + \
-        [gen_shared_case(rng) for _ in range(60 if chk.quick else 600)]
+        [gen_shared_case(rng) for _ in range(60 if chk.quick else 600)] + \
+        [gen_multi_matcher_case(rng)
+         for _ in range(70 if chk.quick else 700)] + \
+        [gen_decode_case(rng) for _ in range(70 if chk.quick else 700)]
     done = evaluate(chk, cases, 'c07')
     for case, want in done[:3]:
         chk.sample({'case': case, 'implementation': c01.brief(want, 600)})
